@@ -81,6 +81,81 @@ type flowRun struct {
 	conn   *vnet.TCPConn
 	abort  string
 	health string
+	pert   *flowPert // one environment event placed before the injection with index pert.At (nil: none)
+	inj    int       // injections so far
+}
+
+// flowPert is one behaviour-neutral environment event placed between two steps of a flow: time
+// passing (the resolver period, the transaction timers, half a dialog timeout), traffic the
+// statements say is dropped (garbage, a request no rule matches, a response without a further Via),
+// another TCP client coming and going, a keep-alive of the caller. None of them may change what the
+// proxy does with the flow's own messages, so the oracles are applied unchanged.
+type flowPert struct {
+	At   int    `json:"pert_at"`
+	Kind string `json:"pert_kind"`
+}
+
+var flowPertKinds = []string{"tick-2.5s", "tick-33s", "tick-599s", "garbage-udp", "dropped-request", "stray-response", "tcp-visitor", "tcp-visitor-garbage", "caller-keepalive", "resolver-round"}
+
+const flowStranger = "127.0.0.7:5060"
+
+func (f *flowRun) perturb() {
+	k := f.inj
+	f.inj++
+	if f.pert == nil || f.pert.At != k {
+		return
+	}
+	w := f.w
+	switch f.pert.Kind {
+	case "tick-2.5s":
+		w.S.W.Advance(2500e6)
+		w.S.Run()
+	case "tick-33s":
+		w.S.W.Advance(33e9)
+		w.S.Run()
+	case "tick-599s":
+		w.S.W.Advance(599e9)
+		w.S.Run()
+	case "resolver-round":
+		// five periods of the resolver, one at a time
+		for i := 0; i < 5; i++ {
+			w.S.W.Advance(2001e6)
+			w.S.Run()
+		}
+	case "garbage-udp":
+		w.SendUDP(flowStranger, flowLst, []byte("\r\n\r\n"))
+		w.SendUDP(flowStranger, flowLst, []byte("GARBAGE that is not SIP\r\n\r\n"))
+		w.SendUDP(flowStranger, flowLst, []byte("INVITE sip:cut@svc.example.com SIP/2.0\r\nVia: SIP/2.0/UDP 127.0.0.7:5060;branch=z9hG4bKcut\r\nContent-Le"))
+	case "dropped-request":
+		m := MsgSpec{Method: "OPTIONS", RURI: "sip:nobody@nowhere.invalid", Vias: []string{"SIP/2.0/UDP " + flowStranger + ";branch=z9hG4bKstranger" + strconv.Itoa(k)}, From: "<sip:stranger@nowhere.invalid>;tag=s", To: "<sip:nobody@nowhere.invalid>",
+			CallID: "stranger-" + strconv.Itoa(k), CSeq: "1 OPTIONS"}.Build().Render()
+		w.SendUDP(flowStranger, flowLst, m)
+	case "stray-response":
+		m := []byte("SIP/2.0 200 OK\r\nVia: SIP/2.0/UDP 127.0.0.1:5060;branch=z9hG4bKstray\r\nFrom: <sip:stranger@nowhere.invalid>;tag=s\r\nTo: <sip:nobody@nowhere.invalid>;tag=t\r\nCall-ID: stray-" + strconv.Itoa(k) + "\r\nCSeq: 1 OPTIONS\r\nContent-Length: 0\r\n\r\n")
+		w.SendUDP(flowStranger, flowLst, m)
+	case "tcp-visitor", "tcp-visitor-garbage":
+		c, err := w.S.TCPDial("127.0.0.7:0", flowLstTCP)
+		if err == nil {
+			w.S.Run()
+			if f.pert.Kind == "tcp-visitor" {
+				w.SendTCP(c, []byte("\r\n\r\n"))
+			} else {
+				w.SendTCP(c, []byte("GARBAGE that is not SIP\r\n\r\n"))
+			}
+			if !c.IsClosed() {
+				c.Close()
+			}
+			w.S.Run()
+		}
+	case "caller-keepalive":
+		if f.conn != nil {
+			w.SendTCP(f.conn, []byte("\r\n\r\n"))
+		} else {
+			w.SendUDP(flowCaller, flowLst, []byte("\r\n\r\n"))
+		}
+	default:
+		panic("harness: unknown flow perturbation " + f.pert.Kind)
+	}
 }
 
 const flowCaller, flowLst, flowLstTCP = "127.0.0.9:5060", "127.0.0.1:5060", "127.0.0.1:5062"
@@ -115,6 +190,7 @@ func (f *flowRun) record(step, from, src string, m *WMsg, expect string) *flowEv
 
 // fromCaller injects a message of the caller (over its UDP socket or its TCP connection).
 func (f *flowRun) fromCaller(step string, m *WMsg, expect string) *flowEv {
+	f.perturb()
 	f.w.Observe()
 	if f.cfg.CallerTCP {
 		f.w.SendTCP(f.conn, m.Render())
@@ -126,6 +202,7 @@ func (f *flowRun) fromCaller(step string, m *WMsg, expect string) *flowEv {
 
 // fromBackend injects a message of a backend (UDP from its configured address).
 func (f *flowRun) fromBackend(step, backend string, m *WMsg, expect string) *flowEv {
+	f.perturb()
 	f.w.Observe()
 	f.w.SendUDP(backend, flowLst, m.Render())
 	return f.record(step, "callee", backend, m, expect)
@@ -872,7 +949,8 @@ func RunFlows(c *Ctx, oracles ...flowOracle) {
 			if !c.Mine(idx) || c.Expired() {
 				continue
 			}
-			for _, v := range runOneFlow(fl.Name, ci, oracles...) {
+			vs, inj := runOneFlowP(fl.Name, ci, nil, oracles...)
+			for _, v := range vs {
 				c.Violate("flow|"+v.Clause+"|"+fl.Name, "flow-"+v.Clause, v.Detail, map[string]any{"flow": fl.Name, "cfg": ci})
 			}
 			c.Res.Evaluations++
@@ -880,6 +958,30 @@ func RunFlows(c *Ctx, oracles ...flowOracle) {
 			c.Res.Nontrivial++
 			c.Count("call_flows_run", 1)
 			_ = cfg
+			if len(vs) > 0 {
+				continue // the unperturbed flow already fails: the perturbed runs would only repeat it
+			}
+			// perturbed pass: one behaviour-neutral environment event before every injection of the flow
+			// (quick: the two default configurations; thorough: all)
+			if c.Tier != "thorough" && ci != 0 && ci != len(flowCfgs())/2 {
+				continue
+			}
+			for at := 0; at < inj; at++ {
+				for _, kind := range flowPertKinds {
+					if c.Expired() {
+						break
+					}
+					pvs, _ := runOneFlowP(fl.Name, ci, &flowPert{At: at, Kind: kind}, oracles...)
+					for _, v := range pvs {
+						// one signature per clause and kind of event: the first failing (flow, position) is the replayable case
+						c.Violate("flow|"+v.Clause+"|perturbed:"+kind, "flow-"+v.Clause, v.Detail, map[string]any{"flow": fl.Name, "cfg": ci, "pert_at": at, "pert_kind": kind})
+					}
+					c.Res.Evaluations++
+					c.Res.Executions++
+					c.Res.Nontrivial++
+					c.Count("call_flows_run_with_an_environment_event_between_two_steps", 1)
+				}
+			}
 		}
 	}
 	// every ordered pair of flows through one proxy (default configuration, caller over UDP and over TCP)
@@ -907,6 +1009,13 @@ func RunFlows(c *Ctx, oracles ...flowOracle) {
 // runOneFlow: name is a flow or "A+B" (flow B run after flow A through the same proxy, with other
 // call identifiers: every flow also starts from the state another flow left behind).
 func runOneFlow(name string, ci int, oracles ...flowOracle) []flowViolation {
+	vs, _ := runOneFlowP(name, ci, nil, oracles...)
+	return vs
+}
+
+// runOneFlowP: the same with one environment event (flowPert) placed before one injection; also
+// returns the number of injections the flow made.
+func runOneFlowP(name string, ci int, pert *flowPert, oracles ...flowOracle) ([]flowViolation, int) {
 	cfg := flowCfgs()[ci]
 	var fns []flowFn
 	for _, part := range strings.Split(name, "+") {
@@ -917,13 +1026,14 @@ func runOneFlow(name string, ci int, oracles ...flowOracle) []flowViolation {
 		}
 	}
 	f := startFlow(cfg, name)
+	f.pert = pert
 	defer f.close()
 	if cr := guard(func() {
 		for i, fn := range fns {
 			fn(f, 1+100*i)
 		}
 	}); cr != "" {
-		return []flowViolation{{"health", fmt.Sprintf("flow %s, configuration %s: %s", name, cfg, cr)}}
+		return []flowViolation{{"health", fmt.Sprintf("flow %s, configuration %s: %s", name, cfg, cr)}}, f.inj
 	}
 	out := flowHealth(f)
 	seen := map[string]bool{}
@@ -935,7 +1045,12 @@ func runOneFlow(name string, ci int, oracles ...flowOracle) []flowViolation {
 			}
 		}
 	}
-	return out
+	if pert != nil {
+		for i := range out {
+			out[i].Detail = fmt.Sprintf("[environment event %q placed before injection %d of the flow] ", pert.Kind, pert.At) + out[i].Detail
+		}
+	}
+	return out, f.inj
 }
 
 // RunFlowLayoutPairs (C17): every flow under "two Via values on separate lines" and under "the same
@@ -1023,11 +1138,17 @@ func ReplayFlow(raw []byte, oracles ...flowOracle) (string, bool) {
 	var cs struct {
 		Flow string `json:"flow"`
 		Cfg  int    `json:"cfg"`
+		At   int    `json:"pert_at"`
+		Kind string `json:"pert_kind"`
 	}
 	if json.Unmarshal(raw, &cs) != nil || cs.Flow == "" {
 		return "", false
 	}
-	vs := runOneFlow(cs.Flow, cs.Cfg, oracles...)
+	var pert *flowPert
+	if cs.Kind != "" {
+		pert = &flowPert{At: cs.At, Kind: cs.Kind}
+	}
+	vs, _ := runOneFlowP(cs.Flow, cs.Cfg, pert, oracles...)
 	if len(vs) == 0 {
 		return "", true
 	}
